@@ -37,6 +37,7 @@ gw_approve = [
     k(GW, C + "c01_approve_messages_n1_bounded", "AxelarGateway::approve_messages", bounded="batch of exactly 1 message"),
     k(GW, C + "c01_approve_messages_n2_bounded", "AxelarGateway::approve_messages", bounded="batch of exactly 2 messages (incl. in-batch duplicate)"),
 ]
+gw_approve3 = k(GW, C + "c01_approve_messages_n3_bounded", "AxelarGateway::approve_messages", bounded="batch of exactly 3 messages (incl. in-batch duplicates)", tier="thorough")
 gw_rotate_entry = k(GW, C + "c03_rotate_signers_entry", "AxelarGateway::rotate_signers")
 gw_update_ts = k(GW, A + "c09_update_rotation_timestamp", "auth::update_rotation_timestamp")
 
@@ -71,7 +72,7 @@ checks = {
     },
     "C01": {
         "verus": ["C01."],
-        "kani": gw_approve + [k(GW, C + "c01_validate_proof_entry", "AxelarGateway::validate_proof")],
+        "kani": gw_approve + [gw_approve3, k(GW, C + "c01_validate_proof_entry", "AxelarGateway::validate_proof")],
     },
     "C02": {
         "scans": ["c02_writers"],
@@ -79,7 +80,7 @@ checks = {
             k(GW, C + "c02_validate_message", "AxelarGateway::validate_message"),
             k(GW, C + "c02_is_message_approved", "AxelarGateway::is_message_approved"),
             k(GW, C + "c02_is_message_executed", "AxelarGateway::is_message_executed"),
-        ] + gw_approve,
+        ] + gw_approve + [gw_approve3],
     },
     "C03": {
         "verus": ["C03."],
@@ -88,7 +89,8 @@ checks = {
     },
     "C08": {
         "verus": ["C08."],
-        "kani": [gw_rotate_entry] + [dict(gw_approve[1], also=["C01.approve_only_with_valid_proof", "C01.approve_digest", "C01.approve_err_is_proof_err"])] + [k(GW, C + "c01_validate_proof_entry", "AxelarGateway::validate_proof", also=["C01.entry"])],
+        # the configured retention must be the one construction stores
+        "kani": [dict(h, also=["C03.ctor_retention_stored"]) for h in gw_ctor] + [gw_rotate_entry] + [dict(gw_approve[1], also=["C01.approve_only_with_valid_proof", "C01.approve_digest", "C01.approve_err_is_proof_err"])] + [k(GW, C + "c01_validate_proof_entry", "AxelarGateway::validate_proof", also=["C01.entry"])],
     },
     "C09": {
         "kani": [gw_update_ts, k(GW, A + "c03_rotate_signers", "auth::rotate_signers", also=["C03.delay_flag_forwarded"]), gw_rotate_entry],
@@ -111,6 +113,7 @@ token_all = [
     tok("c12_burn", "burn"), tok("c12_burn_from", "burn_from"),
     tok("c12_mint_from", "mint_from"), tok("c12_owner_mint", "mint"),
     tok("c12_set_admin", "set_admin"), tok("c12_transfer_ownership_event", "transfer_ownership"),
+    tok("c12_burn_notrap", "burn", mode="notrap"), tok("c12_mint_from_notrap", "mint_from", mode="notrap"), tok("c12_approve_notrap", "approve", mode="notrap"),
 ]
 token_admin = [tok("c06_token_add_minter", "add_minter"), tok("c06_token_remove_minter", "remove_minter"), tok("c06_token_transfer_ownership", "transfer_ownership"),
                tok("c12_owner_mint", "mint"), tok("c12_set_admin", "set_admin")]
@@ -121,6 +124,8 @@ upgrades = [
     gas("c15_gas_upgrade", "upgrade (derived)"), gas("c15_gas_migrate", "migrate (derived)"),
     ops("c15_operators_upgrade", "upgrade (derived)"), ops("c15_operators_migrate", "migrate (derived)"),
     tok("c15_token_upgrade", "upgrade (derived)"), tok("c15_token_migrate", "migrate (derived)"),
+    k(GW, C + "c15_std_migrate_custom_migration", "axelar_soroban_std::interfaces::migrate (generic, custom migration closure)"),
+    k(GW, C + "c15_std_migrate_announces_contract_version", "axelar_soroban_std::interfaces::migrate (generic, version of the migrating contract)"),
     k(UPG, T + "c15_upgrader_upgrade", "Upgrader::upgrade"),
 ]
 checks["C12"] = {"kani": token_all}
@@ -205,6 +210,10 @@ checks["C10"] = {"scans": ["c10_strict_flag"], "codec_differential": True, "kani
 checks["C02"]["lemmas"] = ["c02_history_monotone"]
 checks["C05"]["lemmas"] = ["c05_history_custody"]
 checks["C14"]["lemmas"] = ["c14_history_balance"]
+
+# the service-level checks that use the codec through its contract also run the sampled codec test (bounded stand-in for A-ALLOY)
+for _p in ("C04", "C05", "C18"):
+    checks[_p]["codec_differential"] = True
 
 if __name__ == "__main__":
     here = os.path.dirname(os.path.abspath(__file__))
